@@ -85,9 +85,27 @@ def rule_kernel_path(repo, col):
         return
     after = False
     rebound = []
+    par = _parents(fn)
+
+    def canonical_collapse(n):
+        # `if md is not None and not any(md): md = None` - the normal form
+        # of "no metadata", the only re-binding that is not a change
+        if not (isinstance(n, ast.Assign) and isinstance(
+                n.value, ast.Constant) and n.value.value is None):
+            return False
+        p = par.get(id(n))
+        if not isinstance(p, ast.If) or n not in p.body:
+            return False
+        t = unparse(p.test, 300)
+        names = {x.id for tg in n.targets for x in ast.walk(tg)
+                 if isinstance(x, ast.Name)}
+        return any(('not any(%s)' % nm) in t or ('all(not ' in t and nm in t)
+                   for nm in names)
     for n in body_walk(fn):
         if n is k:
             after = True
+            continue
+        if after and canonical_collapse(n):
             continue
         if after and isinstance(n, (ast.Assign, ast.AugAssign)):
             tg = n.targets if isinstance(n, ast.Assign) else [n.target]
@@ -701,3 +719,115 @@ for _f, _k in ((rule_disjoint_accumulates, 'OR-DISJOINT'),
     RULE_TEXT.setdefault(_k, ' '.join(_f.__doc__.split()))
 for _k in ('SB-LABEL', 'TA-RNG', 'SB-RANK'):
     RULE_TEXT.setdefault(_k, ' '.join(rule_small_shortcuts.__doc__.split()))
+
+
+def rule_metadata_canonical(repo, col):
+    """SB-MDCANON: "no metadata" has one representation. Every value
+    installed in _sample_metadata / _observation_metadata is None, or has
+    passed a collapse of "all entries empty" to None (the constructor's and
+    del_metadata's normal form); otherwise a table differs from its own copy
+    (which the constructor normalises)."""
+    rule = 'SB-MDCANON'
+    cls = repo.cls(TABLE, 'Table')
+    FIELDS = ('_sample_metadata', '_observation_metadata')
+
+    def collapse_test(t):
+        """An `all entries are empty` test."""
+        s = unparse(t, 300)
+        if 'not any(' in s or 'all(not ' in s:
+            return True
+        if '== {True' in s and ('not ' in s or 'empties' in s):
+            return True
+        return False
+
+    def collapses(fn_or_body, name=None):
+        """Does this body set `name` (or return) None under a collapse
+        test?"""
+        for n in ast.walk(fn_or_body):
+            if isinstance(n, ast.If):
+                tests = [n.test]
+                # nested: if md is not None: if not any(md): return None
+                if collapse_test(n.test) or any(
+                        collapse_test(x) for x in ast.walk(n.test)
+                        if isinstance(x, ast.expr)):
+                    for b in ast.walk(n):
+                        if isinstance(b, ast.Return) and isinstance(
+                                b.value, ast.Constant) and \
+                                b.value.value is None and name is None:
+                            return True
+                        if isinstance(b, ast.Assign) and isinstance(
+                                b.value, ast.Constant) and \
+                                b.value.value is None and name and any(
+                                    dotted(t) == name or (
+                                        isinstance(t, ast.Attribute) and
+                                        t.attr == name)
+                                    for t in b.targets):
+                            return True
+        return False
+    n_st = 0
+    for fn in cls.body:
+        if not isinstance(fn, ast.FunctionDef):
+            continue
+        q = 'Table.' + fn.name
+        nested = {x.name: x for x in ast.walk(fn)
+                  if isinstance(x, ast.FunctionDef) and x is not fn}
+        # local sets computed from `not md` comprehensions (del_metadata,
+        # __init__) count as collapse tests through their name
+        for st in body_walk(fn):
+            if not (isinstance(st, ast.Assign) and any(
+                    isinstance(t, ast.Attribute) and t.attr in FIELDS
+                    for t in st.targets)):
+                continue
+            n_st += 1
+            fld = [t.attr for t in st.targets
+                   if isinstance(t, ast.Attribute)][0]
+            v = st.value
+            role = 'store:%s' % fld
+            if isinstance(v, ast.Constant) and v.value is None:
+                col.ok(rule, TABLE, q, role, st, 'None')
+                continue
+            ok = False
+            why = ''
+            if isinstance(v, ast.Call) and isinstance(v.func, ast.Name) and \
+                    v.func.id in nested and collapses(nested[v.func.id]):
+                ok, why = True, 'normalised by %s' % v.func.id
+            elif isinstance(v, ast.Name) and collapses(fn, v.id):
+                ok, why = True, 'collapsed to None when all entries are ' \
+                    'empty before it is stored'
+            else:
+                # the store sits in the else-branch of a collapse test
+                # (constructor) or the method normalises afterwards
+                par = _parents(fn)
+                cur = st
+                while id(cur) in par and not ok:
+                    p = par[id(cur)]
+                    if isinstance(p, ast.If) and cur in p.orelse and (
+                            collapse_test(p.test)):
+                        ok, why = True, 'stored only when some entry is ' \
+                            'not empty'
+                    cur = p
+                if not ok:
+                    later = [c for c in body_walk(fn) if isinstance(
+                        c, ast.Call) and dotted(c.func) in (
+                        'self._cast_metadata', 'table._cast_metadata') and
+                        c.lineno > st.lineno]
+                    if later and repo.has_func(TABLE,
+                                               'Table._cast_metadata'):
+                        cm = repo.func(TABLE, 'Table._cast_metadata')
+                        inner = [x for x in ast.walk(cm) if isinstance(
+                            x, ast.FunctionDef) and x is not cm]
+                        if any(collapses(x) for x in inner):
+                            ok, why = True, 'normalised by the ' \
+                                '_cast_metadata() that follows'
+            col.check(ok, rule, TABLE, q, role, st, why,
+                      'metadata is installed without the "all entries '
+                      'empty => None" normalisation: a table whose '
+                      'remaining entries are all empty keeps a tuple of '
+                      'empty mappings, while its copy (built by the '
+                      'constructor) has None, so `t == t.copy()` is False '
+                      'and the two export differently')
+    col.soft(n_st >= 6, rule, TABLE, '<Table>', 'instances', None,
+             '%d metadata stores' % n_st, 'metadata stores not found')
+
+
+RULE_TEXT['SB-MDCANON'] = ' '.join(rule_metadata_canonical.__doc__.split())
